@@ -463,6 +463,7 @@ func c08Body(e *Env) {
 		}
 	}
 	r.ReopenFn = func() { reopen(false) }
+
 	if cfg.Variant != 7 && cfg.Variant != 8 { // variants 7 and 8 arm their fault at the size-changing reopen
 		d.SetFaults(c.Faults)
 	}
